@@ -110,7 +110,8 @@ def _coqc_gen(fname, timeout=300):
 
 
 def _proof_status(src, out, ok):
-    """Per obligation: 'proved' | 'FAILED in <lemma>: <coq message>' | 'not checked (blocked by <lemma>)'."""
+    """Per obligation: 'proved' | 'FAILED in <lemma>: <coq message>' | 'not checked (blocked by <lemma>)';
+    second component: the obligation that owns the first failing lemma."""
     if ok:
         return {n: "proved" for n in OBLIGATION_THEOREM}, None
     heads = [(m.start(), m.group(1)) for m in
@@ -122,7 +123,8 @@ def _proof_status(src, out, ok):
     for pos, name in heads:
         if line_of(pos) <= fail_line:
             failing = name
-    msg = " ".join(out[m.end():].split())[:160] if m else " ".join(out.split())[-160:]
+    msg = " ".join(out[m.end():].split()) if m else " ".join(out.split())[-200:]
+    msg = (msg[msg.index("Error:"):] if "Error:" in msg else msg)[:200]
     failing = failing or "<import of the generated file>"
     order = [name for _, name in heads]
     status = {}
@@ -140,7 +142,8 @@ def _proof_status(src, out, ok):
         else:
             status[obl] = f"not checked (blocked by {failing})"
         prev_thm_idx = idx
-    return status, failing
+    owners = [o for o, v in status.items() if v.startswith("FAILED")]
+    return status, (owners[0] if owners else failing)
 
 
 def index_obligations():
